@@ -27,6 +27,7 @@ ASSUMPTIONS = [
     "the library's non-integrated constant coalescent is anchored to the exact Kingman reference of C08 in the same run",
 ]
 BUDGET = {"quick": 80, "thorough": 800}
+ROUNDS = {"thorough": 8}
 FLOORS = {"quadratic_form_checks": {"quick": 300, "thorough": 3000}, "quadrature_checks": {"quick": 100, "thorough": 800},
           "statistics_checks": {"quick": 250, "thorough": 2500}, "variants": 4}
 
